@@ -543,9 +543,11 @@ def c06_env_block(ctx):
             comps = set()
             M.contains(a_[0], lambda u: comps.add(u[2]) or False if (u[0] == "field" and u[2] in ("0", "1") and M.contains(u, envf) and M.contains(a_[0], lambda w: w[0] == "call" and w[1] == ENC)) else False)
             t_e = bool_edges(osf, To, lambda c, bb=bb: c[0] == "call" and len(c) > 3 and c[3] == bb, True)
-            errs = all([v for (b2, si2, v, r2) in result_variants(osf, M.Explore(osf, start=e_[1]))] and
-                       all(v in ("Err", "from_residual") for (b2, si2, v, r2) in result_variants(osf, M.Explore(osf, start=e_[1]))) and
-                       not (osf.reachable(e_[1]) & set(cp)) for e_ in t_e) and bool(t_e)
+            def hit_only_errs(e_):
+                Ex_ = M.Explore(osf, start=e_[1])
+                rv_ = [v for (b2, si2, v, r2) in result_variants(osf, Ex_)]
+                return bool(rv_) and all(v in ("Err", "from_residual") for v in rv_) and not (Ex_.blocks & set(cp))
+            errs = all(hit_only_errs(e_) for e_ in t_e) and bool(t_e)
             if errs:
                 covered |= comps
                 gate.append(bb)
